@@ -2685,3 +2685,92 @@ let export am s =
   (match rename_columns am cols with
    | Ret titles -> Ret (combine titles (map (resolve am) cols))
    | Raise e -> Raise e)
+
+(** val positions : z list -> z list -> (nat * nat) list **)
+
+let positions old_span new_span =
+  concat
+    (map (fun ip ->
+      match find_pos (snd ip) old_span with
+      | Some p -> ((fst ip), p) :: []
+      | None -> []) (combine (seq O (length new_span)) new_span))
+
+(** val write_positions :
+    pyval list -> (nat * nat) list -> pyval list -> pyval list **)
+
+let write_positions src ps dst =
+  fold_left (fun d np ->
+    match nth_error src (snd np) with
+    | Some c -> upd (fst np) c d
+    | None -> d) ps dst
+
+(** val reindex_name :
+    (char list -> char list) -> (char list -> dtype -> pyval) -> z list ->
+    state -> (char list * var) list outcome -> char list -> (char list * var)
+    list outcome **)
+
+let reindex_name rn fill new_span s acc name =
+  match acc with
+  | Ret vs ->
+    if negb (mem (rn name) s.index)
+    then Raise KeyError
+    else (match assoc (rn name) s.vars with
+          | Some src ->
+            let fresh = { vdtype = src.vdtype; vshape =
+              ((length new_span) :: []); vdata =
+              (repeat (fill name src.vdtype) (length new_span)) }
+            in
+            let vs1 = assoc_set name fresh vs in
+            (match assoc (rn name) vs1 with
+             | Some tgt ->
+               Ret
+                 (assoc_set (rn name) { vdtype = tgt.vdtype; vshape =
+                   tgt.vshape; vdata =
+                   (write_positions src.vdata (positions s.span new_span)
+                     tgt.vdata) } vs1)
+             | None -> Raise KeyError)
+          | None -> Raise KeyError)
+  | Raise e -> Raise e
+
+(** val reindex_with :
+    (char list -> char list) -> (char list -> dtype -> pyval) -> z list ->
+    state -> state outcome **)
+
+let reindex_with rn fill new_span s =
+  match fold_left (reindex_name rn fill new_span s) s.index (Ret s.vars) with
+  | Ret vs ->
+    Ret { span = new_span; index = s.index; vars = vs; registry = s.registry;
+      adict = s.adict; strict = s.strict; kind = s.kind; names = s.names;
+      dflt = s.dflt }
+  | Raise e -> Raise e
+
+(** val np_fill : ckind -> char list -> dtype -> pyval **)
+
+let np_fill k name d =
+  match k with
+  | CVC ->
+    (match d with
+     | DFloat -> PFlt FNaN
+     | DInt -> PInt Z0
+     | DBool -> PBool false
+     | DStr _ -> PStr []
+     | DObj -> PNone)
+  | _ ->
+    if eqb0 name ('s'::('t'::('a'::('t'::('u'::('s'::[]))))))
+    then (match d with
+          | DBool -> PBool true
+          | DStr w -> PStr (truncate w ('-'::[]))
+          | _ -> PStr ('-'::[]))
+    else if eqb0 name
+              ('i'::('t'::('e'::('r'::('a'::('t'::('i'::('o'::('n'::('s'::[]))))))))))
+         then (match d with
+               | DFloat -> PFlt (FHalf (Zneg (XO XH)))
+               | DBool -> PBool true
+               | DStr w -> PStr (truncate w ('-'::('1'::[])))
+               | _ -> PInt (Zneg XH))
+         else (match d with
+               | DFloat -> PFlt FNaN
+               | DInt -> PInt Z0
+               | DBool -> PBool false
+               | DStr _ -> PStr []
+               | DObj -> PNone)
